@@ -12,6 +12,12 @@ CLAIMS = {
  "C06": ("SSA edge-dominance of every mutation and every value return by the nil edge of the audit-writing permission helper; path-enumerated fail-closed summary of the helper; must-pass-through (record on every path, refusal branches, nothing on the not-modified path); value identity of the record's fields; error discipline and sink wiring of audit.Writer; constant open flags",
          "Structural necessary conditions, decided on all paths: no mutation takes effect and no secret value is returned except after the audit-writing helper returned nil for that caller/action/name; the helper writes a record on every path (also when denying) and cannot return nil if the write failed; the unchanged conditional get writes nothing; the record's fields are the request's; the Writer returns every Encode error, reports success only through Sync of the very sink it encodes to, unbuffered; the audit file is O_APPEND, never truncated, owner-only. Does not decide interleaving of concurrent appends on a real file.",
          "json.Encoder.Encode = one Write per record; O_APPEND atomic per write(2); multierr.New nil iff all nil", "4/C06"),
+ "C12": ("inter-procedural must-held lock-set analysis (type-level lock identity, inferred entry states of helpers, tabled pre-publication region ending where the *Store escapes), effect reachability of blocking/service operations from every call made under the lock, who-may-write on SecretValue, edge-dominance of removals by the handle-map check",
+         "Structural conditions decided for every schedule: all accesses to the active maps and cached entries are ordered by one mutex (the standard sufficient condition for absence of data races on them); nothing that can wait for the service, the network, a timer or another goroutine is reachable while the mutex is held, so a handle never waits for a request; installed values are replaced, never mutated (no torn value); a name with a handle is never removed and only non-nil fetched values are installed, so the handle's unchecked dereference is safe; the read path has no panic site. Does not decide the order of values readers observe nor replace race-detector runs.",
+         "Go memory model; Cache.Write is local persistence; logf/timeNow function values do not block on the service", "4/C12"),
+ "C14": ("inter-procedural must-held lock-set analysis over package db (constructor chain tabled as pre-publication), single-critical-section path check per operation, type- and value-level escape check of shared state, who-may-write on server.Server, key/version value identity",
+         "For the data part a sufficient condition, decided for every schedule: every access to kv/secret state lies inside db.DB.mu; each operation's accesses form one critical section between invocation and response; nothing aliasing shared state leaves it (values copied by conversion, no map/*secret results); the server layer is stateless after New; a value's reported version is the key its bytes were read under. Hence operations are linearizable w.r.t. the sequential code (C02). Does not search concurrent histories; the audit writer (outside DB.mu) is not part of the claim.",
+         "Go memory model; one DB per kv; calls through function values do not reach db's private state", "4/C14"),
  "C03": ("typestate on SSA CFG paths (mutation => save => tested error before any return), value-flow of the bytes handed to the file writer, edge-dominance on the open path, JSON wire-signature computed from go/types against the frozen v1 signature, reader/writer sibling agreement",
          "Structural necessary conditions, decided on all paths: no mutator of the persistent state can return without having called the file-writing save and tested its error; what is saved is the live map, wrapped as documented; opening writes only when the file does not exist; the v1 wire layout (keys, encodings, AEAD contexts, key template, schema constant) is unchanged and reader and writer agree. Does not decide state equality after arbitrary histories nor decoding of real old files.",
          "encoding/json encodes according to the computed shape; tink keyset reader/writer are inverse; the v1 layout is the one documented on db.kv", "4/C03"),
